@@ -98,6 +98,15 @@ NodeListsOK(nd, m, target, r) ==
     /\ (4 \in fams => ReplyOK(nd.t, target, now, Handles(r.nodes), LAMBDA a : a.fam = 4))
     /\ (6 \in fams => ReplyOK(nd.t, target, now, Handles(r.nodes6), LAMBDA a : a.fam = 6))
 
+\* the mechanism's prediction of a node list (RoutingTable!Closest on the observed table): compared as DRIFT only
+PredNodes(nd, target, fam) ==
+    LET cl == SelectSeq(Closest([nd.t EXCEPT !.self = nd.id], target, now), LAMBDA c : c.addr.fam = fam) IN
+    [i \in 1..Min2(8, Len(cl)) |-> [id |-> cl[i].id, addr |-> cl[i].addr]]
+NodeListsExact(nd, m, target, r) ==
+    LET fams == WantFams(nd, m) IN
+    /\ (4 \in fams => Handles(r.nodes) = PredNodes(nd, target, 4))
+    /\ (6 \in fams => Handles(r.nodes6) = PredNodes(nd, target, 6))
+
 ValuesOK(nd, ih, src, vals) ==
     LET got == {vals[i] : i \in 1..Len(vals)}
         live == {p \in PS!LiveStrict(nd.acked, now) : p[1] = ih /\ p[2].fam = src.fam}
@@ -117,6 +126,8 @@ ReplyChecks(nd, m, src, rep, ln) ==
        THEN /\ Chk("C05", "reply-carries-own-id", ln, Has(rep.m, "r") /\ rep.m.r.idl = 20 /\ rep.m.r.id = nd.id)
             /\ (m.q \in {"ping", "find_node", "announce_peer"} =>
                     Chk("C05", "no-token-no-values-outside-get_peers", ln, rep.m.r.tokenl = -1 /\ rep.m.r.nvalues = 0))
+            /\ (m.q = "find_node" => Drift("find_node-node-list-order", ln, NodeListsExact(nd, m, m.a.target, rep.m.r)))
+            /\ (m.q = "get_peers" => Drift("get_peers-node-list-order", ln, NodeListsExact(nd, m, m.a.info_hash, rep.m.r)))
             /\ (m.q = "find_node" => Chk("C09", "find_node-node-list", ln, NodeListsOK(nd, m, m.a.target, rep.m.r))
                                      /\ Chk("C05", "find_node-families", ln, (4 \notin WantFams(nd, m) => Len(rep.m.r.nodes) = 0) /\ (6 \notin WantFams(nd, m) => Len(rep.m.r.nodes6) = 0)))
             /\ (m.q = "get_peers" =>
@@ -160,7 +171,7 @@ FitsOK(m, ln) ==
 
 \* ------------------------------------------------------------------ lookups (C02 C03 C04 C16 C19)
 NewLookup(e) == [target |-> e.target, announce |-> e.announce, at |-> now, q |-> <<>>, toks |-> <<>>, budget |-> <<>>,
-                 nann |-> 0, anndst |-> {}, ihx |-> "?", done |-> FALSE, doneAt |-> -1, eg |-> -1, consumed |-> 0, told |-> {}, sid |-> -1, failed |-> 0]
+                 nann |-> 0, anndst |-> {}, ihx |-> "?", fresh |-> TRUE, done |-> FALSE, doneAt |-> -1, eg |-> -1, consumed |-> 0, told |-> {}, sid |-> -1, failed |-> 0]
 BagAdd(b, xs) == LET S0 == {xs[i] : i \in 1..Len(xs)} IN
     [x \in DOMAIN b \cup S0 |-> FGet(b, x, 0) + Cardinality({i \in 1..Len(xs) : xs[i] = x})]
 BagHas(b, x) == x \in DOMAIN b /\ b[x] > 0
@@ -455,6 +466,23 @@ NeverLost(n, nd, tt) ==
         live == {SlotC(tt, p).addr : p \in RLiveSlots(tt, now)} IN
     \A i \in 1..Len(plan) : (plan[i].mode = "Answer" /\ plan[i].addr \in nd.admitted) => plan[i].addr \in live
 
+\* the mechanism's prediction of the first round of a search (lookup.rs TableLookup::new): among the (at most 8) good nodes the
+\* table walk hands out first, the ALPHA = 4 closest to the target -- compared with the observed first get_peers as DRIFT only
+RECURSIVE ClosestK(_, _, _, _)
+ClosestK(cands, target, k, acc) ==
+    IF k = 0 \/ cands = {} THEN acc
+    ELSE LET best == CHOOSE c \in cands : \A d \in cands : c = d \/ ~Closer160(target, d.id, c.id) IN
+         ClosestK(cands \ {best}, target, k - 1, acc \cup {best.addr})
+PredInitial(nd, tt, target) ==
+    LET walk == SelectSeq(Closest([tt EXCEPT !.self = nd.id], target, now), LAMBDA c : Status(c, now) = GOOD)
+        first8 == {walk[i] : i \in 1..Min2(8, Len(walk))} IN
+    ClosestK(first8, target, 4, {})
+FirstRoundDrift(nd, pre, ln) ==
+    \A aid \in DOMAIN nd.lk :
+        nd.lk[aid].fresh =>
+            Drift("first-round-of-a-search", ln,
+                  {nd.lk[aid].q[t].dst : t \in {x \in DOMAIN nd.lk[aid].q : nd.lk[aid].q[x].at = nd.lk[aid].at}} = PredInitial(nd, pre, nd.lk[aid].target))
+
 TableChecks(nd, tt, ln) ==
     /\ Chk("C11", "a-contact-that-always-answers-is-never-lost (every table dump)", ln, NeverLost(Rec[ln].node, nd, tt))
     /\ Chk("C08", "table-shape", ln, ShapeOK([tt EXCEPT !.self = nd.id], now))
@@ -483,8 +511,10 @@ HEndStep(e) ==
     /\ (isIncoming /\ m.y = "q") => Chk("C12", "a-query-never-admits-its-sender", l, RLiveHandles(post, now) \subseteq RLiveHandles(pre, now))
     /\ (isIncoming /\ Unsolicited(nd0, m)) => Chk("C12", "unsolicited-response-changes-no-contacts", l, RLiveHandles(post, now) = RLiveHandles(pre, now))
     /\ (Len(e.ch[2]) > 0 => TableChecks(nd0, post, l))
+    /\ FirstRoundDrift(nd0, pre, l)
     /\ Chk("C14", "node-keeps-running-while-handles-exist", l, e.running \/ ~st.open)
-    /\ Upd(e, [nd2 EXCEPT !.t = post, !.step = [open |-> FALSE]])
+    /\ Upd(e, [nd2 EXCEPT !.t = post, !.step = [open |-> FALSE],
+                         !.lk = [a \in DOMAIN @ |-> IF @[a].fresh THEN [@[a] EXCEPT !.fresh = FALSE] ELSE @[a]]])
     /\ UNCHANGED G
 
 WorkerTable(e) ==
